@@ -524,6 +524,48 @@ type TbDoc struct {
 
 func (TbDoc) TableName() string { return "tb_docs_custom" }
 
+// ---- keyed: relations through tags and non-primary keys (parsed on first use; not driven by the
+// generic operations): belongs-to by a unique code, many2many with foreignKey/references,
+// polymorphic with polymorphicType/polymorphicId, a relation inside a NAMED embedded struct ----
+type KyOwner struct {
+	ID   int64
+	Name string
+	Val  int64
+	Code string `gorm:"uniqueIndex;size:32"`
+}
+type KyItem struct {
+	ID        int64
+	Name      string
+	Val       int64
+	OwnerCode string
+	Owner     *KyOwner `gorm:"foreignKey:OwnerCode;references:Code"`
+	Links     []KyOwner `gorm:"many2many:ky_links;foreignKey:Name;references:Code;joinForeignKey:ItemName;joinReferences:OwnerCode"`
+}
+type KyNote struct {
+	ID   int64
+	Name string
+	Val  int64
+	Kind string
+	Ref  int64
+}
+type KyBook struct {
+	ID    int64
+	Name  string
+	Val   int64
+	Notes []KyNote `gorm:"polymorphicType:Kind;polymorphicId:Ref;polymorphicValue:book"`
+}
+type KyAudit struct {
+	Note      string
+	KyOwnerID int64
+	KyOwner   *KyOwner
+}
+type KyDoc struct {
+	ID    int64
+	Name  string
+	Val   int64
+	Audit KyAudit `gorm:"embedded;embeddedPrefix:au_"`
+}
+
 // ---- bad (protocol rounds only) ----
 type BadP struct {
 	ID   int64
@@ -560,6 +602,7 @@ type RelDesc struct {
 	Kind  string // has_many|has_one|belongs_to|many2many
 	FK    string // name of the Go FK field on the side that holds the key ("" for many2many)
 	OK    bool
+	Hidden bool `json:",omitempty"` // parsed on first use (model config, build closure) but not driven by the generic operations
 }
 
 var Pool []TypeDesc
@@ -572,7 +615,7 @@ var poolTables []string      // table names under schema.NamingStrategy{}
 
 type relB struct {
 	field, to, kind, fk string
-	bad                 bool
+	bad, hidden         bool
 }
 
 func td[T any](family string, bad bool, rels ...relB) func() TypeDesc {
@@ -582,7 +625,7 @@ func td[T any](family string, bad bool, rels ...relB) func() TypeDesc {
 			New:      func() interface{} { return new(T) },
 			NewSlice: func() interface{} { return new([]T) }}
 		for _, r := range rels {
-			d.Rels = append(d.Rels, RelDesc{Field: r.field, To: -1, Kind: r.kind, FK: r.fk, OK: !r.bad})
+			d.Rels = append(d.Rels, RelDesc{Field: r.field, To: -1, Kind: r.kind, FK: r.fk, OK: !r.bad, Hidden: r.hidden})
 			pendingTo = append(pendingTo, r.to)
 		}
 		return d
@@ -591,10 +634,11 @@ func td[T any](family string, bad bool, rels ...relB) func() TypeDesc {
 
 var pendingTo []string
 
-func hm(f, to, fk string) relB { return relB{f, to, "has_many", fk, false} }
-func ho(f, to, fk string) relB { return relB{f, to, "has_one", fk, false} }
-func bt(f, to, fk string) relB { return relB{f, to, "belongs_to", fk, false} }
-func mm(f, to string) relB     { return relB{f, to, "many2many", "", false} }
+func hm(f, to, fk string) relB { return relB{f, to, "has_many", fk, false, false} }
+func ho(f, to, fk string) relB { return relB{f, to, "has_one", fk, false, false} }
+func bt(f, to, fk string) relB { return relB{f, to, "belongs_to", fk, false, false} }
+func mm(f, to string) relB     { return relB{f, to, "many2many", "", false, false} }
+func hid(r relB) relB          { r.hidden = true; return r }
 func badRel(r relB) relB       { r.bad = true; return r }
 
 func init() {
@@ -661,6 +705,11 @@ func init() {
 		td[FdAll]("fields", false),
 		td[HkDoc]("hooked", false),
 		td[TbDoc]("hooked", false),
+		td[KyOwner]("keyed", false),
+		td[KyItem]("keyed", false, hid(bt("Owner", "KyOwner", "OwnerCode")), hid(mm("Links", "KyOwner"))),
+		td[KyNote]("keyed", false),
+		td[KyBook]("keyed", false, hid(hm("Notes", "KyNote", "Ref"))),
+		td[KyDoc]("keyed", false, hid(bt("KyOwner", "KyOwner", "KyOwnerID"))),
 	}
 	Families = map[string][]int{}
 	for i, f := range defs {
